@@ -2,20 +2,26 @@ import Req.Driver.Proto
 import Req.Client.Retry
 import Req.Client.Attempt
 import Req.Client.Backoff
+import Req.Client.RetryDyn
 /-!
 Driver lanes of C10.
 
 `c10run <variant> <clientOps> <reqOps> <conds> <hooks> <after> <script> <backoffObs>
         <c.cookies> <c.headers> <c.form> <c.query> <c.allowGet>
-        <method> <url> <cookies> <headers> <form> <ordered> <query> <multipart> <files> <body>`
-→ the whole trace of `Request.Do` (events, per-attempt wire requests, final result).
+        <method> <url> <cookies> <headers> <form> <ordered> <query> <multipart> <files> <body>
+        <resend> <ivx>`
+→ the whole trace of `Request.Do` (events, per-attempt wire requests, final result), and of every
+further `Do` on the same `Request` (`resend`: per re-send the setter calls made before it).
+Conditions / response middleware `<pred>[~<edit>]`, hooks `C<k>`, `I<src>`, `X` and the interval
+function (`ivx`) may edit the retry option or cancel the context IN FLIGHT (`Req.RetryDyn`);
+an edit `…@<j>` acts only when the callback sees attempt number `j`.
 
 `c10backoff <guard> <min> <max> <attempt> <observed|p>` → `panic` / `ok` / `bad:<lo>:<hi>`.
 
 `c10policy <clientOps> <reqOps>` → the effective retry option.
 -/
 namespace Req.Driver.L.C10
-open Req.Proto Req.Retry Req.Attempt
+open Req.Proto Req.Retry Req.Attempt Req.RetryDyn
 
 /-! ### decoding -/
 
@@ -99,7 +105,47 @@ def decPred (s : String) : Option Pred :=
   | "L" => rest.toNat?.map .attemptLt
   | _ => none
 
-def decPreds (s : String) : Option (List Pred) := (splitList "," s).mapM decPred
+/-- An in-flight edit of a stub: what, and (optionally) only at which attempt number. -/
+structure StubEdit where
+  edit : Edit
+  at? : Option Nat
+
+def StubEdit.eval (e : Option StubEdit) (attempt : Nat) : Edit :=
+  match e with
+  | none => .nop
+  | some e =>
+    match e.at? with
+    | none => e.edit
+    | some j => if attempt == j then e.edit else .nop
+
+/-- `c<k>` SetRetryCount, `i<src>` SetRetry…Interval, `x` cancel the context; `@<j>` suffix. -/
+def decStubEdit (s : String) : Option StubEdit :=
+  let (body, at?) : String × Option (Option Nat) :=
+    match s.splitOn "@" with
+    | [b] => (b, some none)
+    | [b, j] => (b, j.toNat?.map some)
+    | _ => (s, none)
+  match at? with
+  | none => none
+  | some at? =>
+    let rest := dropS body 1
+    match takeS body 1 with
+    | "c" => rest.toInt?.map fun k => ⟨⟨some k, none, false⟩, at?⟩
+    | "i" => (decInterval rest).map fun i => ⟨⟨none, some i, false⟩, at?⟩
+    | "x" => if rest == "" then some ⟨⟨none, none, true⟩, at?⟩ else none
+    | _ => none
+
+structure PredStub where
+  pred : Pred
+  edit : Option StubEdit
+
+def decPredStub (s : String) : Option PredStub :=
+  match s.splitOn "~" with
+  | [p] => (decPred p).map fun p => ⟨p, none⟩
+  | [p, e] => do pure ⟨← decPred p, some (← decStubEdit e)⟩
+  | _ => none
+
+def decPreds (s : String) : Option (List PredStub) := (splitList "," s).mapM decPredStub
 
 /-- What a hook stub does to the request. -/
 inductive HookAct
@@ -127,7 +173,19 @@ def decHook (s : String) : Option HookAct :=
   | "B" => (decodeHex rest).map .setBody
   | _ => none
 
-def decHooks (s : String) : Option (List HookAct) := (splitList "," s).mapM decHook
+structure HookStub where
+  act : HookAct
+  edit : Option StubEdit
+
+/-- `C<k>[@j]`, `I<src>[@j]`, `X[@j]`: the hook edits the retry option / cancels the context. -/
+def decHookStub (s : String) : Option HookStub :=
+  match takeS s 1 with
+  | "C" => (decStubEdit ("c" ++ dropS s 1)).map fun e => ⟨.noop, some e⟩
+  | "I" => (decStubEdit ("i" ++ dropS s 1)).map fun e => ⟨.noop, some e⟩
+  | "X" => (decStubEdit ("x" ++ dropS s 1)).map fun e => ⟨.noop, some e⟩
+  | _ => (decHook s).map fun a => ⟨a, none⟩
+
+def decHooks (s : String) : Option (List HookStub) := (splitList "," s).mapM decHookStub
 
 def decOutcome (s : String) : Option Outcome :=
   let rest := dropS s 1
@@ -287,30 +345,64 @@ def mkCfg (cookies : List (Bytes × Bytes)) (headers form query : Multi) (allowG
     ctKey := ofStr "Content-Type",
     mGet := ofStr "GET", mHead := ofStr "HEAD", mOptions := ofStr "OPTIONS" }
 
-def mkPolicy (ro : Option RetryOption) (conds : List Pred) (hooks : List HookAct) (after : List Pred) :
+def mkPolicy (ro : Option RetryOption) (conds : List PredStub) (hooks : List HookStub) (after : List PredStub) :
     Option (Policy ReqState) :=
   match ro with
-  | none => some ⟨false, 0, [], [], after.map Pred.eval, .dflt⟩
+  | none => some ⟨false, 0, [], [], after.map (·.pred.eval), .dflt⟩
   | some o => do
-    let cs ← o.conds.mapM fun id => (conds[id]?).map fun p => (id, p.eval)
-    let hs ← o.hooks.mapM fun id => (hooks[id]?).map fun a => (id, a.apply)
-    pure ⟨true, o.maxRetries, cs, hs, after.map Pred.eval, o.interval⟩
+    let cs ← o.conds.mapM fun id => (conds[id]?).map fun p => (id, p.pred.eval)
+    let hs ← o.hooks.mapM fun id => (hooks[id]?).map fun a => (id, a.act.apply)
+    pure ⟨true, o.maxRetries, cs, hs, after.map (·.pred.eval), o.interval⟩
+
+/-- The behaviour table of the in-flight edits. -/
+def mkEdits (conds : List PredStub) (hooks : List HookStub) (after : List PredStub) (ivx : Option Nat) : Edits :=
+  { after := fun i o => StubEdit.eval ((after[i]?).bind (·.edit)) o.attempt,
+    cond := fun id o => StubEdit.eval ((conds[id]?).bind (·.edit)) o.attempt,
+    hook := fun id o => StubEdit.eval ((hooks[id]?).bind (·.edit)) o.attempt,
+    ivl := fun a _ => ⟨none, none, ivx == some a⟩ }
+
+/-- The setter calls before a re-send (`n=`, `i=` only). -/
+def decResendOps (s : String) : Option (List Edit) :=
+  if s == "_" then some [] else
+  (s.splitOn ",").mapM fun t =>
+    match decSetter t with
+    | some (.count n) => some ⟨some n, none, false⟩
+    | some (.interval i) => some ⟨none, some i, false⟩
+    | _ => none
+
+def decResend (s : String) : Option (List (List Edit)) := (splitList ";" s).mapM decResendOps
+
+def countIntervals : List (Event Wire) → Nat
+  | [] => 0
+  | .interval _ _ _ :: t => countIntervals t + 1
+  | _ :: t => countIntervals t
+
+def encSends (showWire : Bool) : List (List (Event Wire) × Final) → List Int → List String
+  | [], _ => []
+  | (ev, fin) :: more, obs =>
+    encEvents showWire ev obs ++ [encFinal fin] ++ encSends showWire more (obs.drop (countIntervals ev))
 
 def laneRun (showWire : Bool) : List String → String
   | [v, cops, rops, conds, hooks, after, script, bobs,
      cck, chd, cfm, cq, cag,
-     method, url, ck, hd, fm, ord, q, mp, files, body] =>
+     method, url, ck, hd, fm, ord, q, mp, files, body, resend, ivx] =>
     let r : Option String := do
       let v ← decVariant v
       let ro := effective (← decSetters cops) (← decSetters rops)
-      let p ← mkPolicy ro (← decPreds conds) (← decHooks hooks) (← decPreds after)
+      let conds ← decPreds conds
+      let hooks ← decHooks hooks
+      let after ← decPreds after
+      let p ← mkPolicy ro conds hooks after
+      let ivx ← if ivx == "-" then some none else ivx.toNat?.map some
+      let ed := mkEdits conds hooks after ivx
       let script ← decScript script
+      let resend ← decResend resend
       let bobs ← (splitList "," bobs).mapM String.toInt?
       let cfg := mkCfg (← decPairs cck) (← decMulti chd) (← decMulti cfm) (← decMulti cq) (← decBool cag)
       let st : ReqState := ⟨← decodeHex method, ← decodeHex url, ← decPairs ck, ← decMulti hd, ← decMulti fm,
         ← decPairs ord, ← decMulti q, ← decBool mp, ← decFiles files, ← decBody body⟩
-      let tr := run v p (mw v cfg) (unreplayable v st) script st
-      pure (" ".intercalate (encEvents showWire tr.events bobs ++ [encFinal tr.final]))
+      let sends := dsends v p ed (mw v cfg) (unreplayable v) resend script 0 st (dynOf p)
+      pure (" ".intercalate (encSends showWire sends bobs))
     r.getD "bad-op"
   | _ => "bad-op"
 
